@@ -4,4 +4,4 @@ From LH Require Import Base.Bytes Base.Res Model.Lexer Model.Ast Model.Parser Mo
   Spec.SymbolSpec Proofs.SymbolsJudge.
 Extraction "c19model.ml" extract_anchor tk_code parse_bytes classify_tok
   analyse fuel_of_bytes deployed outline_state merge_ws_log foreign_globals finalize find_all_symbol file_wsyms range_of
-  decls_spec line_lens judge_all ws_judge wentries_of in_fragment has_annot.
+  b_G_dot decls_spec line_lens judge_all explain_ws ws_judge wentries_of in_fragment has_annot.
